@@ -423,7 +423,47 @@ def moved2d_stream(ctx, n):
         compare_sets(ctx, "C18:mixed-factors-3d", descd, expd, call_impl(lambda: D.intersect(L)))
 
 
+def partly_in_plane_stream(ctx, n):
+    """a SINGLE polygon of space against a line / segment collection of which one member lies in the polygon's plane, and polygon
+    collections / cuboids against a SINGLE segment that lies in the plane of some faces: the in-plane pairs contribute nothing, the
+    other pairs their piercing points — what the pairwise single calls return"""
+    import geometer as g
+    rng = ctx.rng
+    for k in range(n):
+        a, b, h = rng.randint(2, 4), rng.randint(2, 4), float(rng.randint(-2, 2))
+        sq = [(0.0, 0.0), (float(a), 0.0), (float(a), float(b)), (0.0, float(b))]
+        poly = g.Polygon(*[g.Point(x, y, h) for x, y in sq])
+        px, py = a / 2, b / 2
+        pierce = (g.Point(px, py, h - 1), g.Point(px, py, h + 1))
+        inplane = (g.Point(0.5, 0.5, h), g.Point(a + 3.0, 0.5, h))
+        miss = (g.Point(a + 2.0, py, h - 1), g.Point(a + 2.0, py, h + 1))
+        members = [pierce, inplane, miss]
+        rng.shuffle(members)
+        exp = [[px, py, h, 1.0]]
+        for kind in ("lines", "segments"):
+            coll = g.LineCollection([g.Line(p, q) for p, q in members]) if kind == "lines" else g.SegmentCollection([g.Segment(p, q) for p, q in members])
+            desc = f"single polygon {sq} at z={h} x {kind} collection [piercing, in the plane, missing] in some order"
+            ctx.case(desc)
+            ctx.count("partly-in-plane:polygon-x-" + kind)
+            compare_sets(ctx, "C18:partly-in-plane:polygon-x-" + kind, desc, [[Fr(x).limit_denominator(1000) for x in e] for e in exp], call_impl(lambda: poly.intersect(coll)))
+        # a cuboid / polygon collection against one segment lying in the plane of its bottom face and leaving through a side face
+        cube = g.Cuboid(g.Point(0.0, 0.0, h), g.Point(float(a), 0.0, h), g.Point(0.0, float(b), h), g.Point(0.0, 0.0, h + 2.0))
+        seg = g.Segment(g.Point(px, py, h), g.Point(a + 3.0, py, h))
+        desc = f"cuboid [0,{a}]x[0,{b}]x[{h},{h + 2}] x single segment in the plane of its bottom face"
+        ctx.case(desc)
+        ctx.count("partly-in-plane:cuboid-x-segment")
+        compare_sets(ctx, "C18:partly-in-plane:cuboid-x-segment", desc, [[Fr(a), Fr(py).limit_denominator(1000), Fr(h).limit_denominator(1000), Fr(1)]], call_impl(lambda: cube.intersect(seg)))
+        pc = g.PolygonCollection([np.asarray(poly.array), np.asarray((g.translation(0.0, 0.0, 1.0) * poly).array)])
+        seg2 = g.Segment(g.Point(px, py, h), g.Point(px, py, h + 2.0))        # starts in the first polygon's plane?? no: it pierces the second, touches the first at its end point
+        seg3 = g.Segment(g.Point(0.5, 0.5, h), g.Point(a + 3.0, 0.5, h))      # lies in the plane of the first polygon, parallel to the second
+        desc = f"two parallel polygons x single segment in the plane of the first"
+        ctx.case(desc)
+        ctx.count("partly-in-plane:collection-x-segment")
+        compare_sets(ctx, "C18:partly-in-plane:collection-x-segment", desc, [], call_impl(lambda: pc.intersect(seg3)))
+
+
 def correspondence(ctx):
+    partly_in_plane_stream(ctx, ctx.budget(12, 120))
     from props import c16 as _c16
     _c16.complex_segment_stream(ctx, ctx.budget(40, 400), prefix="C18")
     import colllib as _cl
